@@ -26,7 +26,11 @@ func (c *Chooser) Choose(n int) int {
 }
 
 // ChoiceStats reports what an exploration covered.
+// MaxDeviationPositions thins the deviation positions of very long executions (0 = never).
+var MaxDeviationPositions = 0
+
 type ChoiceStats struct {
+	Thinned    bool
 	Executions int
 	Complete   bool // every choice vector was run
 	MaxPoints  int
@@ -49,7 +53,18 @@ func ExploreChoices(run func(c *Chooser), maxComplete, bound int) ChoiceStats {
 			st.MaxPoints = len(c.Trace)
 		}
 		limited := len(c.Trace) > maxComplete
+		// very long executions (thousands of choice points): deviation positions are thinned out
+		// to at most ~MaxDeviationPositions per execution; reported as not complete
+		stride := 1
+		if MaxDeviationPositions > 0 && len(c.Trace) > MaxDeviationPositions {
+			stride = len(c.Trace)/MaxDeviationPositions + 1
+			st.Complete = false
+			st.Thinned = true
+		}
 		for i := len(prefix); i < len(c.Trace); i++ {
+			if stride > 1 && i%stride != 0 {
+				continue
+			}
 			if limited && dev+1 > bound {
 				st.Complete = false
 				break
